@@ -89,6 +89,7 @@ type Config struct {
 	MapOrder      string
 	Verbose       int
 	NoSlice       bool
+	GenericFork   bool
 }
 
 func (it *Interp) bug(f string, a ...interface{}) *pathEnd {
@@ -838,6 +839,12 @@ func (it *Interp) binop(op token.Token, a, b Value, ta, tb types.Type) Value {
 			if it.Branch(c.Eq(y, zero)) {
 				it.goPanicStr("div0", "runtime error: integer divide by zero")
 			}
+			if r := it.constDiv(op, signed, x, y); r != nil { // opt-in (params.exact_const_div), see divconst.go
+				return r
+			}
+			if it.hcfg != nil && it.hcfg.cur.AbstractDiv && !y.IsConst() && !x.IsConst() {
+				return it.abstractDiv(op, signed, x, y)
+			}
 			if signed {
 				if op == token.QUO {
 					return c.BVSDiv(x, y)
@@ -1279,5 +1286,57 @@ func (it *Interp) abstractURem(x, y *smt.Term) *smt.Term {
 	it.addPC(c.BVUle(r, x))
 	it.addPC(c.Implies(c.BVUlt(x, y), c.Eq(r, x)))
 	it.P.Exact = append(it.P.Exact, c.Eq(r, c.BVURem(x, y)))
+	return r
+}
+
+// abstractDiv replaces x/y or x%y (both symbolic) by a fresh value with only the cheap consequences of the
+// definition (sign and magnitude bounds for non-negative operands). This over-approximates the operation:
+// obligations proved under it hold for the real operation; a counterexample is re-decided with the exact
+// definition (Path.Exact) before it is reported. Identical operand pairs give the identical value.
+func (it *Interp) abstractDiv(op token.Token, signed bool, x, y *smt.Term) *smt.Term {
+	c := it.C
+	kind := 0
+	if op == token.REM {
+		kind = 1
+	}
+	if signed {
+		kind += 2
+	}
+	key := [2]int{x.ID*4 + kind, y.ID}
+	if r, ok := it.P.uremMemo[key]; ok {
+		return r
+	}
+	if it.P.uremMemo == nil {
+		it.P.uremMemo = map[[2]int]*smt.Term{}
+	}
+	r := c.Var(fmt.Sprintf("div!%d!%d!%d", kind, x.ID, y.ID), x.Sort)
+	it.P.uremMemo[key] = r
+	zero := c.BVU(0, x.Sort.W)
+	var exact *smt.Term
+	switch {
+	case signed && op == token.QUO:
+		exact = c.BVSDiv(x, y)
+		nonneg := c.And(c.BVSle(zero, x), c.BVSlt(zero, y))
+		it.addPC(c.Implies(nonneg, c.And(c.BVSle(zero, r), c.BVSle(r, x))))
+		it.addPC(c.Implies(c.And(nonneg, c.BVSlt(x, y)), c.Eq(r, zero)))
+		it.addPC(c.Implies(c.And(nonneg, c.BVSle(y, x)), c.BVSlt(zero, r)))
+		it.addPC(c.Implies(c.Eq(y, c.BVU(1, x.Sort.W)), c.Eq(r, x)))
+	case signed:
+		exact = c.BVSRem(x, y)
+		nonneg := c.And(c.BVSle(zero, x), c.BVSlt(zero, y))
+		it.addPC(c.Implies(nonneg, c.AndN(c.BVSle(zero, r), c.BVSlt(r, y), c.BVSle(r, x))))
+	case op == token.QUO:
+		exact = c.BVUDiv(x, y)
+		it.addPC(c.BVUle(r, x))
+		it.addPC(c.Implies(c.BVUlt(x, y), c.Eq(r, zero)))
+		it.addPC(c.Implies(c.BVUle(y, x), c.BVUlt(zero, r)))
+		it.addPC(c.Implies(c.Eq(y, c.BVU(1, x.Sort.W)), c.Eq(r, x)))
+	default:
+		exact = c.BVURem(x, y)
+		it.addPC(c.BVUlt(r, y))
+		it.addPC(c.BVUle(r, x))
+		it.addPC(c.Implies(c.BVUlt(x, y), c.Eq(r, x)))
+	}
+	it.P.Exact = append(it.P.Exact, c.Eq(r, exact))
 	return r
 }
